@@ -45,6 +45,7 @@ PROBES = ['incremental_update', 'restart_appeared_between_calls',
           'checkpoints_per_proc', 'enum_permuted', 'overall_checked',
           'group_vars_change', 'per_level_components',
           'process_numbers_with_gaps', 'writer_events_inside_call',
+          'active_restart_symlink', 'param_object_from_parameters_reused',
           'io_fault_fired',
           'io_fault_raise_accepted', 'io_fault_swallowed',
           'call_after_io_fault_checked']
@@ -148,7 +149,11 @@ def generate(rng, tier):
                                                    (4, 1), (6, 1)]),
                                 'when': gf.weighted([('before', 3),
                                                      ('after', 1)])}
+    # simfactory's output-NNNN-active link to the running restart; the param
+    # object obtained once from aurel.parameters() and used for every call
+    cfg['active_link'] = gp.chance(0.4)
     return {'config': cfg, 'enum': enum, 'ops': ops,
+            'param_from_parameters': gp.chance(0.4),
             'final': {'parse': True, 'parameters': True, 'fresh': True}}
 
 
@@ -169,6 +174,10 @@ def simplify(run):
         c = copy.deepcopy(run); c['config']['simname'] = 'sim'; yield c
     if cfg['simpath'] != 'S/':
         c = copy.deepcopy(run); c['config']['simpath'] = 'S/'; yield c
+    if cfg.get('active_link'):
+        c = copy.deepcopy(run); c['config']['active_link'] = False; yield c
+    if run.get('param_from_parameters'):
+        c = copy.deepcopy(run); c['param_from_parameters'] = False; yield c
     for i, o in enumerate(run['ops']):
         if o.get('fault'):
             c = copy.deepcopy(run); del c['ops'][i]['fault']; yield c
@@ -297,6 +306,9 @@ def _execute(run, plan):
                               {'op': 'iterations', 'skip_last': False}]
     nontrivial_flag = False
     after_fault = False
+    param_real = [False]
+    if cfg.get('active_link'):
+        fault('active_restart_symlink')
 
     def check_catalogue(res, where, opi, expect_restarts, maybe=()):
         nonlocal checked
@@ -349,6 +361,23 @@ def _execute(run, plan):
             running = not sim.done()
             if running:
                 probe('writer_running_during_call')
+            if (run.get('param_from_parameters') and not param_real[0]
+                    and 0 in sim.par_written):
+                # the documented way to get `param`; the same object is then
+                # passed to every later call
+                old_loc = os.environ.get('SIMLOC')
+                os.environ['SIMLOC'] = cfg['simpath']
+                try:
+                    param = rd.parameters(cfg['simname'])
+                    param_real[0] = True
+                    fault('param_object_from_parameters_reused')
+                except Exception:  # noqa: BLE001 - judged by final check
+                    pass
+                finally:
+                    if old_loc is None:
+                        os.environ.pop('SIMLOC', None)
+                    else:
+                        os.environ['SIMLOC'] = old_loc
             if kind == 'iterations':
                 skip = op['skip_last']
                 before_seen = set(cat.seen)
